@@ -37,7 +37,8 @@ def _gen_new(rng, cfg):
         dim = {"grid1": 1, "grid2": 2, "grid3": 3, "oned": 1}.get(kind) or rng.choice([1, 2, 3])
         # (a 1-D PeriodicGrid without lattice vectors cannot be constructed today - a C11 matter, not generated here)
         lattice = rng.random() < 0.6 or (kind == "periodic" and dim == 1)
-        return ["new", kind, {"n": n, "dim": dim, "seed": rng.randrange(10**6), "lattice": lattice, "dup": rng.random() < 0.15}]
+        return ["new", kind, {"n": n, "dim": dim, "seed": rng.randrange(10**6), "lattice": lattice, "dup": rng.random() < 0.15,
+                              "wrap": rng.random() < 0.5, "aligned": rng.random() < 0.4, "cell": rng.choice([0.3, 1.0, 2.0, 4.5])}]
     if kind == "rule":
         return ["new", kind, {"n": rng.randint(2, 40), "which": rng.choice(["gl", "gl", "uniform_integer", "trapezoid"])}]
     if kind == "intgrid":
@@ -133,13 +134,23 @@ def _build(p_kind, p):
     if p_kind == "periodic":
         pts, w = _rand_points(p["seed"], p["n"], p["dim"], p["dup"])
         if p["lattice"]:
+            cell = float(p.get("cell", 4.5))
+            r = np.random.RandomState((p["seed"] + 1) % (2**32))
             if p["dim"] == 1:
-                rv = np.array([4.5])
+                rv = np.array([cell])
+                full = rv.reshape(1, 1)
             else:
-                r = np.random.RandomState((p["seed"] + 1) % (2**32))
                 nv = r.randint(1, p["dim"] + 1)
-                rv = (np.eye(p["dim"]) * 4.5 + r.uniform(-0.3, 0.3, size=(p["dim"], p["dim"])))[:nv]
-            return PeriodicGrid(pts, w, rv), {"realvecs": np.array(rv)}
+                full = np.eye(p["dim"]) * cell + r.uniform(-0.3, 0.3, size=(p["dim"], p["dim"])) * (cell / 4.5)
+                rv = full[:nv]
+            if p.get("aligned"):
+                # lattice-aligned points: fractional coordinates k/m (some exactly on cell faces, some outside the cell)
+                m = int(r.choice([3, 4, 6, 10, 12]))
+                frac = r.randint(-m, 2 * m + 1, size=(p["n"], p["dim"])) / m
+                pts = frac @ full
+                if p["dim"] == 1:
+                    pts = pts[:, 0].copy()
+            return PeriodicGrid(pts, w, rv, wrap=bool(p.get("wrap"))), {"realvecs": np.array(rv)}
         return PeriodicGrid(pts, w), {"realvecs": None}
     if p_kind == "atom":
         rg = BeckeRTransform(0.0, 1.0).transform_1d_grid(GaussLegendre(p["nr"]))
